@@ -16,16 +16,19 @@ TECHNIQUE = ("Coq proof (regexp-style matcher = declarative wildcard rules; map-
              "clean = exactly the untracked non-ignored tables; staging-all characterised, with a refuted clause) + in-Coq correspondence against "
              "IsTableNameIgnored / MatchTablePattern and dolt_add / dolt_commit / dolt_clean in an in-process engine")
 LEVEL_TEXT = ("Proof (F/M for the pattern matcher and for clean; P for the decision: proved equal to 'most specific wins / same patterns conflict' for "
-              "pattern sets without '%' and '.', refuted in general by a witness that also fails on the real code ('?' class rewritten); staging-all: "
+              "every pattern set in which no matching pattern with '?' meets a contradicting matching pattern with '%' or '.' (exactly where the "
+              "compiled and the stated '?' class can differ), refuted in general by a witness that also fails on the real code ('?' class rewritten); staging-all: "
               "the clause 'every other change is staged' is refuted by witnesses that also fail on the real code, the staging model itself rests on "
-              "the correspondence). The model is tied to the code by running both on generated pattern sets / table names and on working sets "
+              "the correspondence; a positive staging theorem and permutation invariance of the pattern list are not proved). The specificity test is "
+              "proved sound (it implies inclusion of the matched names) for newline-free patterns. The model is tied to the code by running both on generated pattern sets / table names and on working sets "
               "driven through the SQL procedures, compared inside Coq.")
 LEVEL_NOTE = ("Trusted: Coq kernel, Go harness + Python glue. Modelled, not verified: Go's regexp engine (modelled as a backtracking matcher over code "
               "points with '.' excluding newline and the negated class — as compiled: [^.*.*] — including it), regexp.QuoteMeta (every rune other than ? * % is a literal), "
               "strings.EqualFold for 'dolt_rebase' (ASCII case + U+017F), diff.GetTableDeltas (match by name, then by identity), the SQL engine "
               "and root-value storage (roots are observed as name/identity/row-count triples).")
-THEOREMS = ["rx_eq_glob_b", "glob_b_iff_glob", "match_table_pattern_spec", "decision_is_spec_partial", "decision_most_specific_refuted",
-            "clean_is_spec", "clean_keeps_tracked", "stage_all_every_other_change_refuted", "stage_all_rename_refuted"]
+THEOREMS = ["rx_eq_glob_b", "glob_b_iff_glob", "match_table_pattern_spec", "decision_is_spec_partial", "decision_is_spec_partial2",
+            "decision_most_specific_refuted", "more_specific_sound", "clean_is_spec", "clean_keeps_tracked",
+            "stage_all_every_other_change_refuted", "stage_all_rename_refuted"]
 REFUTED = ["decision_most_specific_refuted", "stage_all_every_other_change_refuted", "stage_all_rename_refuted"]
 RULE = ("decision cases: 0-5 patterns built from the table name by wildcard substitution, respelling of runs ('*' vs '%', doubled), more-specific "
         "chains, contradicting polarities, over code points {a b A _ . \\ ? * % newline e-acute}; names include empty, newline, non-ASCII and "
